@@ -115,14 +115,36 @@ def _make_short_name_mapper():
     variable_names: dict[str, str] = {}
 
     def renamer(name):
-        # TODO: simplify this. No need to use _cleanup_variable_name?
-        var_name = _cleanup_variable_name(name)
+        # Keyed by the ONNX name: names with the same cleaned-up form stay distinct.
+        var_name = name
         if var_name in variable_names:
             return variable_names[var_name]
         new_name = f"v{len(variable_names) + 1}"
         assert var_name is not None  # TODO(rama): This looks suspect.
         variable_names[var_name] = new_name
         return new_name
+
+    return renamer
+
+
+def _make_unique_name_mapper():
+    """Returns a renamer that cleans up names like _cleanup_variable_name, but maps
+    distinct ONNX names (like "a.b" and "a_b") to distinct python names.
+    """
+    python_names: dict[str, str] = {}  # ONNX name -> python name
+    used: set[str] = set()
+
+    def renamer(name):
+        if name not in python_names:
+            cleaned = _cleanup_variable_name(name)
+            candidate = cleaned
+            counter = 0
+            while candidate in used:
+                counter += 1
+                candidate = f"{cleaned}_{counter}"
+            used.add(candidate)
+            python_names[name] = candidate
+        return python_names[name]
 
     return renamer
 
@@ -149,9 +171,11 @@ def _translate_signature(inputs, outputs, rename=_cleanup_variable_name):
     return f"{result}:"
 
 
-def _translate_value_infos(value_infos: Sequence[ValueInfoProto]) -> str:
+def _translate_value_infos(
+    value_infos: Sequence[ValueInfoProto], rename=_cleanup_variable_name
+) -> str:
     def _translate_value_info(value_info: ValueInfoProto) -> str:
-        return f"{_SINGLE_INDENT}'{_cleanup_variable_name(value_info.name)}': {_translate_type(value_info.type)},"
+        return f"{_SINGLE_INDENT}'{rename(value_info.name)}': {_translate_type(value_info.type)},"
 
     lines = [_translate_value_info(x) for x in value_infos]
     lines_joined = "\n".join(lines)
@@ -279,7 +303,7 @@ class _Exporter:
         if rename:
             rename_function = _make_short_name_mapper()
         else:
-            rename_function = _cleanup_variable_name
+            rename_function = _make_unique_name_mapper()
         self._rename_variable = self._handle_attrname_conflict(rename_function)
         self.inline_const = inline_const
         self.constants: dict[str, str] = {}
@@ -699,7 +723,8 @@ class _Exporter:
             opsets[imported.domain] = imported.version
         self._attr_renaming = {}
         used_proto_names = _names_used_in_function(funproto)
-        renamed_names_used = [self._translate_onnx_var(x) for x in used_proto_names]
+        # Sorted: the renaming depends on the order in which names are first seen.
+        renamed_names_used = [self._translate_onnx_var(x) for x in sorted(used_proto_names)]
         self._names_used = set(renamed_names_used)
         result = []
 
@@ -758,7 +783,7 @@ class _Exporter:
         self._name_remappings.pop()
         script = "\n".join(result)
         if self.skipped_initializers:
-            value_infos = _translate_value_infos(graph.value_info)
+            value_infos = _translate_value_infos(graph.value_info, self._translate_onnx_var)
             return self._substitute_initializers(script, function_name, value_infos)
         if self.skip_initializers:
             # Nothing was skipped: the function is not wrapped in make_model, so undo the extra indent.
